@@ -30,6 +30,8 @@ class Opts:
         self.allow_default = True
         self.allow_exotic = 0.04      # shapes known to hit unimplemented / broken paths
         self.big_lengths = 0.0        # probability of lengths >= 128 / 16384
+        self.many_additions = 0.25    # probability that an extensible SEQUENCE gets up to 17 additions
+        self.reuse_names = True
         self.str_kinds = list(STR_KINDS)
         self.__dict__.update(kw)
 
@@ -41,9 +43,23 @@ class Gen:
         self.counter = 0
 
     # ------------------------------------------------------------------ types
+    POOL = ['a', 'b', 'c', 'd', 'e', 'f', 'g', 'h', 'id', 'value', 'data', 'payload', 'ext', 'item', 'x', 'y']
+
     def name(self, prefix='m'):
         self.counter += 1
         return '%s%d' % (prefix, self.counter)
+
+    def names(self, n, prefix='m'):
+        """n distinct identifiers for one container; identifiers recur across containers (as in real
+        specifications) unless reuse_names is off"""
+        if not getattr(self.o, 'reuse_names', True):
+            return [self.name(prefix) for _ in range(n)]
+        pool = list(self.POOL)
+        self.rng.shuffle(pool)
+        out = pool[:n]
+        while len(out) < n:
+            out.append(self.name(prefix))
+        return out
 
     def size(self):
         r = self.rng
@@ -132,10 +148,14 @@ class Gen:
             return {'k': 'seqof', 'elem': self.type(depth + 1), 'size': self.size()}
         if k == 'seq':
             n = r.randint(0, self.o.max_members)
-            root = [self.member(depth) for _ in range(n)]
-            ext = None
+            next_ = 0
             if self.o.allow_ext and r.random() < 0.4:
-                ext = [self.member(depth, addition=True) for _ in range(r.choice([0, 1, 1, 2, 3]))]
+                next_ = r.choice([0, 1, 1, 2, 3, 3, 7, 8, 9, 16, 17]) if r.random() < self.o.many_additions else r.choice([0, 1, 1, 2, 3])
+            nm = self.names(n + next_)
+            root = [self.member(depth, name=nm[i]) for i in range(n)]
+            ext = None
+            if self.o.allow_ext and (next_ or r.random() < 0.1):
+                ext = [self.member(depth if j < 3 else self.o.max_depth, addition=True, name=nm[n + j]) for j in range(next_)]
             return {'k': 'seq', 'root': root, 'ext': ext}
         if k == 'real':
             return {'k': 'real'}
@@ -145,21 +165,24 @@ class Gen:
             return {'k': 'setof', 'elem': self.type(depth + 1), 'size': self.size()}
         if k == 'set':
             n = r.randint(0, self.o.max_members)
-            root = [self.member(depth) for _ in range(n)]
+            nm = self.names(n)
+            root = [self.member(depth, name=nm[i]) for i in range(n)]
             return {'k': 'set', 'root': root, 'ext': None}
         if k == 'choice':
             n = r.randint(1, self.o.max_members)
-            root = [(self.name('c'), self.type(depth + 1)) for _ in range(n)]
+            ne = r.choice([0, 1, 2]) if (self.o.allow_ext and r.random() < 0.35) else -1
+            nm = self.names(n + max(ne, 0), 'c')
+            root = [(nm[i], self.type(depth + 1)) for i in range(n)]
             ext = None
-            if self.o.allow_ext and r.random() < 0.35:
-                ext = [(self.name('d'), self.type(depth + 1)) for _ in range(r.choice([0, 1, 2]))]
+            if ne >= 0:
+                ext = [(nm[n + j], self.type(depth + 1)) for j in range(ne)]
             return {'k': 'choice', 'root': root, 'ext': ext}
         raise ValueError(k)
 
-    def member(self, depth, addition=False):
+    def member(self, depth, addition=False, name=None):
         r = self.rng
         t = self.type(depth + 1)
-        m = {'name': self.name('m'), 't': t, 'opt': False, 'default': None}
+        m = {'name': name or self.name('m'), 't': t, 'opt': False, 'default': None}
         x = r.random()
         if addition:
             # additions are almost always OPTIONAL in real specifications; mandatory ones are legal too
@@ -366,6 +389,7 @@ class RefCtx:
         self.defs = []          # assignment texts, in order of creation
         self.n = 0
         self.flags = set()
+        self.by_text = {}       # type text -> name (identical sub-types share one named type)
 
     def fresh(self, prefix):
         self.n += 1
@@ -380,21 +404,28 @@ class RefCtx:
         return name
 
 
-def type_text(t, ind=1, ctx=None):
+def type_text(t, ind=1, ctx=None, member_pos=False):
     if ctx is not None and ind > 1 and ctx.rng.random() < ctx.p_type:
         k = t['k']
-        if k in ('octs', 'bits', 'str', 'seqof') and t['size'] and ctx.rng.random() < ctx.p_con_on_ref:
+        if member_pos and k in ('octs', 'bits', 'str') and t['size'] and ctx.rng.random() < ctx.p_con_on_ref:
             # T ::= <unconstrained>; use  T (SIZE(..))
             base = dict(t, size=None)
-            name = ctx.fresh('R')
-            ctx.defs.append('%s ::= %s' % (name, type_text(base, 1, ctx)))
+            body = _type_text(base, 1, ctx)
+            if body in ctx.by_text:
+                name = ctx.by_text[body]
+            else:
+                name = ctx.fresh('R')
+                ctx.by_text[body] = name
+                ctx.defs.append('%s ::= %s' % (name, body))
             ctx.flags.add('size-on-reference')
-            if k == 'seqof':
-                # SIZE applies to the referenced SEQUENCE OF
-                return '%s%s' % (name, size_text(t['size']))
             return '%s%s' % (name, size_text(t['size']))
+        body = type_text(t, 1, _NoHoist(ctx))
+        if body in ctx.by_text:
+            ctx.flags.add('shared-type-reference')
+            return ctx.by_text[body]
         name = ctx.fresh('T')
-        ctx.defs.append('%s ::= %s' % (name, type_text(t, 1, _NoHoist(ctx))))
+        ctx.by_text[body] = name
+        ctx.defs.append('%s ::= %s' % (name, body))
         ctx.flags.add('type-reference')
         return name
     return _type_text(t, ind, ctx)
@@ -468,7 +499,7 @@ def _type_text(t, ind, ctx):
 
 
 def member_text(m, ind, ctx=None):
-    s = '%s %s' % (m['name'], type_text(m['t'], ind, ctx))
+    s = '%s %s' % (m['name'], type_text(m['t'], ind, ctx, member_pos=True))
     if m['opt']:
         s += ' OPTIONAL'
     elif m['default'] is not None:
